@@ -83,7 +83,7 @@ def programs():
                   "subroutine before main", "subroutine that exits the program", "call inside a loop", "return point that is a jump target",
                   "mutual recursion", "fall off the end", "subroutine path falls off the end", "retsub in the main program",
                   "retsub in the main program next to a subroutine", "comments and blank lines", "version 3 program (no subroutines yet)",
-                  "program without a version line", "instructions the optimisation detectors report"):
+                  "program without a version line", "instructions the optimisation detectors report", "subroutine that jumps back to its own entry"):
             PROGRAMS[k] = SHAPES[k]
     return PROGRAMS
 
